@@ -56,7 +56,11 @@ package core
 //@      canSeeS(target.Label, dep.Label, dep.Visibility, state.experimentalLabels) && \
 //@      !(dep.TestOnly && target.Test == nil && !target.TestOnly && !inExp(state.experimentalLabels, target.Label))
 //
-//@ assume func (BuildGraph).TargetOrDie
+//@ func (BuildGraph).TargetOrDie
+//@   property C01
+//@   modifies nothing
+//@   opt nopanic=off
+//@   opt panics=allowed
 //@   pure
 //@ axiom targetordie_nonnil: forall g *BuildGraph, l BuildLabel :: g.TargetOrDie(l) != nil
 //
@@ -175,26 +179,54 @@ package core
 //@   callsite (BuildState).queueTargetAsync counted_before_spawn [C04]: called("atomic.AddInt64") && arg_target == target
 
 // Used by the test-result reuse decisions (C11).
-//@ assume func (BuildTarget).State
+//@ func (BuildTarget).State
+//@   property C01
+//@   modifies nothing
+//@   opt nopanic=off
+//@   opt panics=allowed
 //@   pure
-//@ assume func (BuildTarget).TestResultsFile
+//@ func (BuildTarget).TestResultsFile
+//@   property C01
+//@   modifies nothing
+//@   opt nopanic=off
+//@   opt panics=allowed
 //@   pure
-//@ assume func (BuildTarget).CoverageFile
+//@ func (BuildTarget).CoverageFile
+//@   property C01
+//@   modifies nothing
+//@   opt nopanic=off
+//@   opt panics=allowed
 //@   pure
 //@ assume func (Cache).Store
 
 // Used by the incrementality decisions (C01, C03).
-//@ assume func PathExists
+//@ func PathExists
+//@   property C01
+//@   modifies nothing
+//@   opt nopanic=off
+//@   opt panics=allowed
 //@   pure
-//@ assume func (BuildState).ShouldRebuild
+//@ func (BuildState).ShouldRebuild
+//@   property C01
+//@   modifies nothing
+//@   opt nopanic=off
+//@   opt panics=allowed
 //@   pure
 
 // Used by the `//dir/...` expansion (C22): whether a base name is a configured BUILD file name.
-//@ assume func (Configuration).IsABuildFile
+//@ func (Configuration).IsABuildFile
+//@   property C01
+//@   modifies nothing
+//@   opt nopanic=off
+//@   opt panics=allowed
 //@   pure
 
 // Accessors used by the garbage collector's contracts (C25): functions of the target / graph.
-//@ assume func (BuildTarget).DeclaredDependencies
+//@ func (BuildTarget).DeclaredDependencies
+//@   property C01
+//@   modifies nothing
+//@   opt nopanic=off
+//@   opt panics=allowed
 //@   pure
 //@ assume func (BuildGraph).Target
 //@   pure
@@ -202,9 +234,17 @@ package core
 //@   pure
 //@ assume func (BuildGraph).PackageMap
 //@   pure
-//@ assume func (Package).AllTargets
+//@ func (Package).AllTargets
+//@   property C01
+//@   modifies nothing
+//@   opt nopanic=off
+//@   opt panics=allowed
 //@   pure
-//@ assume func (Package).IsIncludedIn
+//@ func (Package).IsIncludedIn
+//@   property C01
+//@   modifies nothing
+//@   opt nopanic=off
+//@   opt panics=allowed
 //@   pure
 
 // ---------------------------------------------------------------------------------------------
@@ -260,9 +300,17 @@ package core
 //
 //@ assume func (BuildTarget).FullOutputs
 //@   pure
-//@ assume func (BuildState).IsOriginalTargetOrParent
+//@ func (BuildState).IsOriginalTargetOrParent
+//@   property C01
+//@   modifies nothing
+//@   opt nopanic=off
+//@   opt panics=allowed
 //@   pure
-//@ assume func (BuildState).OutputHashCheckers
+//@ func (BuildState).OutputHashCheckers
+//@   property C01
+//@   modifies nothing
+//@   opt nopanic=off
+//@   opt panics=allowed
 //@   pure
 
 // ---------------------------------------------------------------------------------------------
@@ -282,7 +330,11 @@ package core
 //@   ensures file [C37]: !dir ==> result == filepath.Join(outDir, output)
 //
 // fileDestination: where the named output exists when the command runs.
-//@ assume func (BuildTarget).OutDir
+//@ func (BuildTarget).OutDir
+//@   property C01
+//@   modifies nothing
+//@   opt nopanic=off
+//@   opt panics=allowed
 //@   pure
 // Outputs: the declared and named outputs in SORTED order whatever order the named-output map is iterated in
 // (its value is a function of the target: `pure`).
@@ -524,17 +576,33 @@ package core
 //@   modifies nothing
 
 // Accessors that only read fields of the target: functions of the target's current value.
-//@ assume func (BuildTarget).TmpDir
+//@ func (BuildTarget).TmpDir
+//@   property C01
+//@   modifies nothing
+//@   opt nopanic=off
+//@   opt panics=allowed
 //@   pure
 //@ assume func (BuildTarget).GetTmpOutput
 //@   pure
-//@ assume func (BuildTarget).OutMode
+//@ func (BuildTarget).OutMode
+//@   property C01
+//@   modifies nothing
+//@   opt nopanic=off
+//@   opt panics=allowed
 //@   pure
-//@ assume func (BuildTarget).BuildCouldModifyTarget
+//@ func (BuildTarget).BuildCouldModifyTarget
+//@   property C01
+//@   modifies nothing
+//@   opt nopanic=off
+//@   opt panics=allowed
 //@   pure
 //@ assume func (BuildTarget).HashLastModified
 //@   pure
-//@ assume func (BuildTarget).TargetBuildMetadataFileName
+//@ func (BuildTarget).TargetBuildMetadataFileName
+//@   property C01
+//@   modifies nothing
+//@   opt nopanic=off
+//@   opt panics=allowed
 //@   pure
 
 // Accessors read by the rule hash: functions of the target (and, for the command, of the configuration).
@@ -557,9 +625,17 @@ package core
 //@   pure
 //@ assume func (BuildTarget).AllData
 //@   pure
-//@ assume func (BuildTarget).DeclaredOutputs
+//@ func (BuildTarget).DeclaredOutputs
+//@   property C01
+//@   modifies nothing
+//@   opt nopanic=off
+//@   opt panics=allowed
 //@   pure
-//@ assume func (BuildTarget).DeclaredNamedOutputs
+//@ func (BuildTarget).DeclaredNamedOutputs
+//@   property C01
+//@   modifies nothing
+//@   opt nopanic=off
+//@   opt panics=allowed
 //@   pure
 // DeclaredOutputNames: the names of the named outputs in sorted order (its value is a function of the target: `pure`).
 //@ func (BuildTarget).DeclaredOutputNames
@@ -621,6 +697,67 @@ package core
 //@   callsite os.LookupEnv never [C10]: false
 //@   callsite os.Environ never [C10]: false
 
+// The other environment builders never read the process environment at all: the per-target env values are expanded
+// against the BUILD environment only ($NAME not in it stays literal), test/runtime/stamped environments are
+// assembled from the state and the target. (ExecEnvironment passes TERM only.)
+//@ func withUserProvidedEnv
+//@   opt nopanic=off
+//@   opt precall=off
+//@   callsite os.Getenv never [C10]: false
+//@   callsite os.LookupEnv never [C10]: false
+//@   callsite os.Environ never [C10]: false
+//@   callsite os.ExpandEnv never [C10]: false
+//@ func withUserProvidedEnv.lit#1
+//@   opt nopanic=off
+//@   callsite os.Getenv never [C10]: false
+//@   callsite os.LookupEnv never [C10]: false
+//@   callsite os.Environ never [C10]: false
+//@   callsite os.ExpandEnv never [C10]: false
+//@   ensures only_from_the_build_environment [C10]: in(k, env) ==> result == env[k]
+//@   ensures unknown_names_stay_literal [C10]: !in(k, env) ==> result == "$" + k
+//@ func RuntimeEnvironment
+//@   requires state != nil && target != nil
+//@   opt nopanic=off
+//@   opt inline=off
+//@   opt precall=off
+//@   callsite os.Getenv never [C10]: false
+//@   callsite os.LookupEnv never [C10]: false
+//@   callsite os.Environ never [C10]: false
+//@ func TestEnvironment
+//@   requires state != nil && target != nil
+//@   opt nopanic=off
+//@   opt inline=off
+//@   opt precall=off
+//@   callsite os.Getenv never [C10]: false
+//@   callsite os.LookupEnv never [C10]: false
+//@   callsite os.Environ never [C10]: false
+//@ func StampedBuildEnvironment
+//@   requires state != nil && target != nil
+//@   opt nopanic=off
+//@   opt inline=off
+//@   opt precall=off
+//@   callsite os.Getenv never [C10]: false
+//@   callsite os.LookupEnv never [C10]: false
+//@   callsite os.Environ never [C10]: false
+//@ func ExecEnvironment
+//@   requires state != nil && target != nil
+//@   opt nopanic=off
+//@   opt inline=off
+//@   opt precall=off
+//@   callsite os.Getenv only_the_terminal_type [C10]: arg_key == "TERM"
+//@   callsite os.LookupEnv never [C10]: false
+//@   callsite os.Environ never [C10]: false
+//
+// setBuildPath: the invoking shell's PATH becomes the build PATH only when PATH ITSELF is listed in PassEnv or
+// PassUnsafeEnv (a variable merely ending in PATH, such as GOPATH, does not open that door).
+//@ func setBuildPath
+//@   requires conf != nil
+//@   opt nopanic=off
+//@   callsite os.Getenv only_PATH_and_only_when_it_is_listed [C10]: arg_key == "PATH" && \
+//@      ((exists j int :: 0 <= j && j < len(passEnv) && passEnv[j] == "PATH") || (exists j int :: 0 <= j && j < len(passUnsafeEnv) && passUnsafeEnv[j] == "PATH"))
+//@   callsite os.LookupEnv never [C10]: false
+//@   callsite os.Environ never [C10]: false
+
 // allBuildInputs: named groups are appended in sorted key order, never in map order.
 //@ func (BuildTarget).allBuildInputs
 //@   opt nopanic=off
@@ -628,11 +765,23 @@ package core
 //@   ensures keys_sorted [C07]: forall i int :: 0 < i && i < len(keys) ==> keys[i-1] <= keys[i]
 
 // Parent/child relations of labels and targets: functions of the value asked.
-//@ assume func (BuildTarget).HasParent
+//@ func (BuildTarget).HasParent
+//@   property C01
+//@   modifies nothing
+//@   opt nopanic=off
+//@   opt panics=allowed
 //@   pure
-//@ assume func (BuildLabel).Parent
+//@ func (BuildLabel).Parent
+//@   property C01
+//@   modifies nothing
+//@   opt nopanic=off
+//@   opt panics=allowed
 //@   pure
-//@ assume func (BuildTarget).Parent
+//@ func (BuildTarget).Parent
+//@   property C01
+//@   modifies nothing
+//@   opt nopanic=off
+//@   opt panics=allowed
 //@   pure
 
 // Accessors used by the change-detection contracts (C24).
@@ -678,7 +827,11 @@ package core
 //@   invariant "range slices.Sorted" every_non_secret_variable_is_hashed [C10]: forall j int :: 0 <= j && j < idx ==> \
 //@      (!hasPrefix(iter[j], "SECRET") ==> collected(W, iter[j]) && collected(W, env[iter[j]]))
 
-//@ assume func (BuildLabel).IsHidden
+//@ func (BuildLabel).IsHidden
+//@   property C01
+//@   modifies nothing
+//@   opt nopanic=off
+//@   opt panics=allowed
 //@   pure
 //@ assume func (BuildInput).Label
 //@   pure
